@@ -34,6 +34,8 @@ struct MockState {
     arrived: usize,
     answers: HashMap<usize, Vec<proto::Target>>,
     discovery_reply: Vec<proto::Target>,
+    /// discovery requests that reached the service
+    discovery_requests: usize,
     select_reply: Option<Reply>,
     last_select: Option<proto::SelectRequest>,
     /// so many select requests are answered with this gRPC status code first (every request is recorded)
@@ -50,6 +52,7 @@ impl Discovery for Mock {
     async fn get_targets(&self, _r: tonic::Request<proto::TargetRequest>) -> Result<tonic::Response<proto::TargetsResponse>, tonic::Status> {
         let held = {
             let mut st = self.0.lock().unwrap();
+            st.discovery_requests += 1;
             if st.held {
                 st.arrived += 1;
                 Some(st.arrived - 1)
@@ -172,6 +175,8 @@ struct Ctx {
     rpcs: AtomicU64,
     ok_targets: AtomicU64,
     rejected: AtomicU64,
+    /// discover() calls that were answered without a request to the service (repeated on a fresh adapter instance)
+    unasked: AtomicU64,
 }
 
 fn bad(cx: &Ctx, key: String, text: String, replay: Value, w: u64) {
@@ -184,6 +189,7 @@ struct Peer {
     /// sits between the configuration and the gRPC adapters is part of the boundary
     disc: passage::adapter::discovery::DynDiscoveryAdapter,
     strat: passage::adapter::strategy::DynStrategyAdapter,
+    url: String,
 }
 
 async fn start_peer() -> Peer {
@@ -199,10 +205,10 @@ async fn start_peer() -> Peer {
     let disc = passage::adapter::discovery::DynDiscoveryAdapter::from_config(passage::config::DiscoveryAdapter::Grpc(passage::config::GrpcDiscovery { address: url.clone() }))
         .await
         .unwrap_or_else(|e| common::machinery(&format!("cannot connect discovery adapter: {e}")));
-    let strat = passage::adapter::strategy::DynStrategyAdapter::from_config(passage::config::StrategyAdapter::Grpc(passage::config::GrpcStrategy { address: url }))
+    let strat = passage::adapter::strategy::DynStrategyAdapter::from_config(passage::config::StrategyAdapter::Grpc(passage::config::GrpcStrategy { address: url.clone() }))
         .await
         .unwrap_or_else(|e| common::machinery(&format!("cannot connect strategy adapter: {e}")));
-    Peer { state, disc, strat }
+    Peer { state, disc, strat, url }
 }
 
 /// direction 1: discovery reply -> discover()
@@ -210,7 +216,19 @@ async fn check_discovery(cx: &Ctx, peer: &Peer, list: &[WireTarget]) {
     peer.state.lock().unwrap().discovery_reply = list.iter().map(to_proto).collect();
     cx.rpcs.fetch_add(1, Ordering::Relaxed);
     let replay = json!({"direction": "discovery-reply", "targets": list.iter().map(|t| json!({"id": t.id, "host": t.host, "port": t.port, "meta": t.meta})).collect::<Vec<_>>()});
-    let got = peer.disc.discover().await;
+    let asked_before = peer.state.lock().unwrap().discovery_requests;
+    let mut got = peer.disc.discover().await;
+    if peer.state.lock().unwrap().discovery_requests == asked_before {
+        // the adapter answered without asking the service (it may keep an answer for a while: how often the service
+        // is asked is not promised): what it returned says nothing about THIS reply. A fresh instance has to ask.
+        cx.unasked.fetch_add(1, Ordering::Relaxed);
+        let fresh = passage::adapter::discovery::DynDiscoveryAdapter::from_config(passage::config::DiscoveryAdapter::Grpc(passage::config::GrpcDiscovery { address: peer.url.clone() })).await;
+        let Ok(fresh) = fresh else { return };
+        got = fresh.discover().await;
+        if peer.state.lock().unwrap().discovery_requests == asked_before {
+            return;
+        }
+    }
     let wants: Vec<(Want, &str)> = list.iter().map(|t| classify_host(&t.host, t.port)).collect();
     let any_must_err = wants.iter().any(|w| w.0 == Want::Err);
     let any_soft = wants.iter().any(|w| matches!(w.0, Want::ErrOr(_) | Want::Unjudged));
@@ -335,7 +353,16 @@ async fn check_select(cx: &Ctx, peer: &Peer, cands: &[Target], reply: Reply, cli
                         bad(cx, format!("select-choice-altered:{class}"), format!("reply {:?}:{port} arrived as {}", host, t.address), replay, w);
                     }
                 }
-                (Want::Addr(_), other) => bad(cx, format!("select-rejects-valid-target:{class}"), format!("reply {:?}:{port} gave {other:?}", host), replay, w),
+                (Want::Addr(a), other) => {
+                    // the statement is about "the target a strategy service picks from the candidates it was sent": a
+                    // well-formed pick that IS one of the candidates (identifier, address and metadata) must come
+                    // through; a pick that is none of them may be refused - it may never arrive as something else
+                    let fmeta: HashMap<String, String> = f.meta.iter().map(|e| (e.key.clone(), e.value.clone())).collect();
+                    let is_candidate = cands.iter().any(|c| c.identifier == f.identifier && c.address == a && c.meta == fmeta);
+                    if is_candidate {
+                        bad(cx, format!("select-rejects-valid-target:{class}"), format!("reply {:?}:{port} gave {other:?}", host), replay, w)
+                    }
+                }
                 _ => {}
             }
         }
@@ -550,7 +577,7 @@ async fn check_whole_connections(cx: &Ctx) -> u64 {
 pub fn run(cli: Cli) -> ! {
     let rep = Report::new("C19", cli.tier, "exploration");
     let thorough = cli.tier.thorough();
-    let cx = Ctx { rep, rpcs: AtomicU64::new(0), ok_targets: AtomicU64::new(0), rejected: AtomicU64::new(0) };
+    let cx = Ctx { rep, rpcs: AtomicU64::new(0), ok_targets: AtomicU64::new(0), rejected: AtomicU64::new(0), unasked: AtomicU64::new(0) };
     if cli.replay.is_some() {
         println!("C19 cases are written out in full in the replay file; the sweep is re-run, which re-evaluates that case.");
     }
@@ -749,6 +776,7 @@ pub fn run(cli: Cli) -> ! {
     cx.rep.require("targets that crossed the boundary", cx.ok_targets.load(Ordering::Relaxed), 50);
     cx.rep.require("rejected replies", cx.rejected.load(Ordering::Relaxed), 20);
     cx.rep.set("evaluations", json!(rpcs));
+    cx.rep.set("discover_calls_answered_without_asking_the_service_and_repeated_on_a_fresh_adapter", json!(cx.unasked.load(Ordering::Relaxed)));
     cx.rep.set("distinct_nontrivial", json!(jobs.len()));
     cx.rep.set("targets_crossed", json!(cx.ok_targets.load(Ordering::Relaxed)));
     cx.rep.set("rejected", json!(cx.rejected.load(Ordering::Relaxed)));
